@@ -78,7 +78,17 @@ C04_Prune(c) ==
             \cup {<<"C04.prune_nodeel", n.tbl, ToString(n.lab)>> : n \in {n \in KeepN(c.net, R) :
                   \E k \in NRows(c.pnet) : NKey(k) = NKey(n) /\ ~eqv(n.m, k.m)}}
 
-C04(c) == IF Returned(c)
+(* thermal pattern (modes with a thermal stage): a branch row has temperatures iff it is thermally calculated; *)
+(* a junction outside the thermally supplied part reports the ambient temperature, never a start value or NaN *)
+C04_Thermal(c) ==
+    IF c.mode \notin {"sequential", "bidirectional"} THEN {} ELSE
+    {<<"C04.thermal_branch", e.tbl, ToString(e.lab)>> : e \in {e \in ERows(c.net) :
+        e.th # (IF BranchThermCalc(c.net, e) THEN "num" ELSE "nan")}}
+    \cup {<<"C04.thermal_junction", "", ToString(j.lab)>> : j \in {j \in JRows(c.net) :
+        j.lab \notin ThermSupplied(c.net) /\ j.t # c.ambient}}
+    \cup {<<"C04.thermal_junction_missing", "", ToString(j.lab)>> : j \in {j \in JRows(c.net) :
+        j.lab \in ThermSupplied(c.net) /\ ~IsNum(j.t)}}
+C04(c) == IF Returned(c) /\ "C04T" \in Rng(c.check) THEN C04_Thermal(c) ELSE IF Returned(c)
           THEN C04_Junctions(c) \cup C04_Branches(c) \cup C04_Loads(c) \cup C04_Feeders(c) \cup C04_NoSupply(c) \cup C04_Prune(c)
           ELSE C04_NoSupply(c)
 
